@@ -65,6 +65,9 @@ CHECKS.update({
  "C19": dict(engine="fxsym", category="translation_validation", design_ref="DESIGN.md §4 C19",
    text="Tracked graphs from the real track_scales (views/negations, rotate-half and stack list arguments, keyword tensor arguments, integer/bool intermediates, two-float-input bool nodes, multi-output, residual, embedding+loss; forward-only and forward+backward). Same-scale pruning: every node's forward/backward mean-|x| and rtol are solver symbols; the real prune_same_scale_tensors runs with path forking over all comparison outcomes (math.isclose = its documented formula) and per path z3 checks path => (removed node same-scale as its resolved bypass target; kept eligible node not same-scale), plus structural checks: lint, original order, input graph unchanged, every removed producer bypassed at every occurrence (positional, keyword, nested). Selective pruning with a solver-selected target subset (removed iff selected, edges cut). Non-float pruning structurally per graph; the three given rtol values on the real recorded metrics.",
    note="Trusted: real track_scales/Dynamo for the graph skeletons (enumerated family of 9 modules x 2 modes); z3 for path feasibility and rule obligations; expected consumer arguments recomputed independently.", technique="symbolic execution of the pruning passes with symbolic metrics and tolerance (z3 path forking); structural translation validation of the result graph"),
+ "C04": dict(engine="symtorch", category="model_checking", design_ref="DESIGN.md §4 C04",
+   text="PARTIAL. Decided: (1) gelu (exact, tanh), silu, silu_glu for EVERY real mult in [1/16,16]: the real functions run with a symbolic mult; on each of 512 log-grid cells z3 proves 0.93 <= factor(m) x sigma(m) <= 1.07 for all m in the cell (output std and every input-gradient RMS), from monotonicity of exp, rational enclosures of the logs of the source's constants and a quadrature enclosure of sigma over the cell; (2) cross_entropy: logit-gradient RMS exactly 1 for uniform logits, for all vocabulary/batch sizes and mult. NOT checked (no closed form for an SMT solver): softmax, attention, non-uniform cross-entropy and norm bands.",
+   note="Trusted: z3 (UF+NRA); the sigma(m) enclosure is numerical (120001-node Simpson rule at cell ends and midpoint, widened 0.2 %, validated against Monte-Carlo on the real torch functions each run), not formal. The softmax/attention/CE-band/norm clauses of the property are outside this check.", technique="symbolic execution with symbolic mult; per-cell SMT (uninterpreted exp/log with monotonicity instances, rational enclosures); quadrature oracle; replay by measurement"),
 })
 
 NA = {
